@@ -245,7 +245,28 @@ def handlers(ctx):
     hb = top[0]
     rs = [r for r in ast.walk(ast.Module(body=hb.body, type_ignores=[])) if isinstance(r, ast.Raise)]
     under_not = [i for i in ast.walk(ast.Module(body=hb.body, type_ignores=[])) if isinstance(i, ast.If) and isinstance(i.test, ast.UnaryOp) and isinstance(i.test.op, ast.Not)]
-    orig = any("with_traceback" in src(r.exc) or src(r.exc) in ("error", "value") for r in rs if r.exc is not None) or any(r.exc is None for r in rs)
+    errp = pn(re_, 2)
+    infov = assigned_from(re_, "sys.exc_info()#1")
+    from_info = [r for r in rs if r.exc is None or any(P.matches(r.exc, "%s.with_traceback($tb)" % v_) or src(r.exc) == v_ for v_ in infov)]
+    from_param = [r for r in rs if r.exc is not None and src(r.exc) == errp]
+    orig = bool(from_info)
+    if not from_info and from_param:
+        # re-raising the argument is the original object only if every caller passes the exception instance
+        sites = [c for c in ast.walk(db.mod("runtime").tree) if isinstance(c, ast.Call) and dotted(c.func) == "_render_error" and len(c.args) >= 3]
+        def _instance(c):
+            a = c.args[2]
+            f = getattr(c, "_func", None)
+            if P.matches(a, "compat.exception_as()") or P.matches(a, "sys.exc_info()[1]"):
+                return True
+            if isinstance(a, ast.Name) and f is not None:
+                if a.id in assigned_from(f, "sys.exc_info()[1]") | assigned_from(f, "compat.exception_as()"):
+                    return True
+                return any(isinstance(h, ast.ExceptHandler) and h.name == a.id for h in ancestors(c))
+            return False
+        classes = [c for c in sites if not _instance(c)]
+        orig = bool(sites) and not classes
+        if classes:
+            ctx.violation("render_error.reraise-argument", db.where(from_param[0]), "a falsy error_handler result re-raises the `%s` argument, but %s passes `%s`, which is not the exception instance (for exceptions that are not Exception subclasses it is the class): a new object is raised instead of the original" % (errp, getattr(getattr(classes[0], "_func", None), "_qual", "?"), src(classes[0].args[2])))
     ctx.check(bool(under_not) and bool(rs) and orig and all(contains(under_not[0], r) for r in rs), "render_error.reraise", db.where(hb), "a falsy error_handler result does not re-raise the original exception object", "`if not result:` re-raises the original value with its traceback")
     eb = hb.orelse
     repl = [s for s in ast.walk(ast.Module(body=eb, type_ignores=[])) if isinstance(s, ast.Assign) and any(isinstance(t, ast.Subscript) and dotted(t.value) == "context._buffer_stack" and isinstance(t.slice, ast.Slice) and t.slice.lower is None and t.slice.upper is None for t in s.targets)]
